@@ -276,17 +276,18 @@ type rpcState struct {
 }
 
 type run struct {
-	e      *core.Env
-	sc     *Scenario
-	net    *simnet.Net
-	led    *tap.Ledger
-	rpcs   map[uint32]*rpcState
-	pool   *trackPool
-	faulty bool
-	trace  bool
-	exts   []Ext
-	Conn   *grpc.ClientConn
-	Srv    *grpc.Server
+	e         *core.Env
+	sc        *Scenario
+	net       *simnet.Net
+	led       *tap.Ledger
+	rpcs      map[uint32]*rpcState
+	pool      *trackPool
+	unsettled bool // a settle() hit its bound: quiescence oracles are off
+	faulty    bool
+	trace     bool
+	exts      []Ext
+	Conn      *grpc.ClientConn
+	Srv       *grpc.Server
 	// request HEADERS seen on the wire (client wrote), for C09
 	reqHeaders []reqHdr
 }
@@ -594,7 +595,18 @@ func (w *run) settle() {
 	if w.sc.Net.StallPct > 0 {
 		step += time.Duration(w.sc.Net.StallNs)
 	}
-	for i := 0; i < 400 && quiet < 6; i++ {
+	// No fixed number of rounds: a byte-at-a-time network (inflight cap 1, 50 us
+	// latency) needs seconds of virtual time to drain a queue, and judging
+	// before it has drained is unsound (a thorough run once asserted "handler
+	// context not cancelled" while the RST_STREAM was still crawling over the
+	// wire). Bounded by virtual time instead; hitting the bound is reported.
+	t0 := time.Now()
+	for i := 0; quiet < 6; i++ {
+		if i > 400 && time.Since(t0) > 30*time.Minute {
+			w.e.Probe("settle_gave_up")
+			w.unsettled = true
+			break
+		}
 		synctest.Wait()
 		d := w.net.InFlightDelay()
 		// a goroutine inside a sleep injected by the runtime's spin guard is
